@@ -114,7 +114,7 @@ theorem version_leaf (v : Version) (h : VersionOK v) :
     dText versionCodec (some (.str (versionMarshal v))) = some v := by
   rcases h with rfl | ⟨hk, hc, hl, hr⟩
   · simp [dText, versionCodec, versionMarshal, Version.zero, versionUnmarshal, cut]
-  · have := versionUnmarshal_marshal v.kind v.v Version.zero hk hc hl (by simp [Version.zero]) hr
+  · have := versionUnmarshal_marshal v.kind v.v Version.zero hk hc hl hr
     simpa [dText, versionCodec] using this
 
 theorem digest_leaf (d : Option Digest) (h : DigestOK d) :
